@@ -141,6 +141,8 @@ def gen_world(r, leg):
 	if len(motifs) >= 2 and r.chance(0.1):
 		motifs[-1]["name"] = motifs[0]["name"] + "-rc"
 	wmin = min(ws)
+	if leg == "real" and not equal and n_seq >= 2 and r.chance(0.25):
+		seqs[r.randint(0, n_seq - 2)] = ""           # a header without sequence lines
 	cfg = {"threshold": r.choice([1e-1, 1e-2, 1e-3, 1e-4, 1e-5, 1e-6, 0.3,
 			0.25, 0.0625, 4.0 ** -min(wmin, 8), 2.0 ** -r.randint(3, 12)]),
 		"bin_size": r.choice([0.01, 0.05, 0.1, 0.1, 0.5, 1.0]),
